@@ -69,7 +69,7 @@ func genC14(t *rapid.T) c14Case {
 		}
 	}
 	if !c.Optional {
-		if cs, ch := g.AliasBounds(q.Clauses, 30, false); ch {
+		if cs, ch := g.AliasBounds(q.Clauses, 30, true); ch {
 			q.Clauses = cs
 		}
 	}
